@@ -24,9 +24,10 @@ EXTENDS SVec
 
 Cells(c, x) == {<<RegionOf(c, x), i>> : i \in 0..(Len(x.e) - 1)}
 
-\* machine state implied by a quiescent container state
-MemOf(st) ==
-  [ live |-> UNION { IF st[c].p THEN Cells(c, st[c]) ELSE {} : c \in {"A", "B"} },
+\* machine state implied by a quiescent container state (element objects are only visible for the
+\* instrumented element flavours)
+MemOf(cfg, st) ==
+  [ live |-> IF cfg.tracked THEN UNION { IF st[c].p THEN Cells(c, st[c]) ELSE {} : c \in {"A", "B"} } ELSE {},
     blk  |-> { <<st.blocks[j][1], st.blocks[j][2], st.blocks[j][3]>> : j \in 1..Len(st.blocks) },
     cur  |-> 0, derefd |-> FALSE, gen |-> 0,
     errs |-> {} ]
@@ -98,7 +99,7 @@ RunEvs(cfg, m, evs, j) == IF j > Len(evs) THEN m ELSE RunEvs(cfg, StepEv(cfg, m,
 
 \* C03 / C04 at the quiescent point after the call
 QuiesceErrs(cfg, m, post) ==
-  LET want == MemOf(post) IN
+  LET want == MemOf(cfg, post) IN
     Err(m, cfg.tracked /\ (m.live \ want.live) # {}, "C03", "live-objects-outside-size()-elements (leaked / temporaries alive)")
     \cup Err(m, cfg.tracked /\ (want.live \ m.live) # {}, "C03", "element-within-size()-is-not-a-live-object")
     \cup Err(m, m.blk # want.blk, "C04", "allocate/deallocate-events-do-not-add-up-to-the-live-blocks")
@@ -106,7 +107,7 @@ QuiesceErrs(cfg, m, post) ==
 \* L0 verdicts of one call, as checks in the L1 format
 MemChecks(cfg, pre, post, ln) ==
   IF Fatal(ln) \/ ln.evtrunc THEN {}
-  ELSE LET m    == RunEvs(cfg, MemOf(pre), ln.evs, 1)
+  ELSE LET m    == RunEvs(cfg, MemOf(cfg, pre), ln.evs, 1)
            errs == m.errs \cup QuiesceErrs(cfg, m, post)
            has(S) == \E j \in 1..Len(ln.evs) : ln.evs[j][1] \in S
            used == (IF has({1, 2, 3}) THEN {"C03"} ELSE {})
